@@ -42,14 +42,14 @@ def build_cases(ctx, rng, days):
     for i in chosen:
         c = days[i]
         day = c["day"]
-        insts = [(0, 0), (86399, 999), (rng.choice(SECS), rng.choice(MSS))]
+        insts = [(86399, 999), (rng.choice(SECS), rng.choice(MSS))]
         if not q or i in special:
-            insts.append((rng.randint(0, 86399), rng.randint(0, 999)))
+            insts += [(0, 0), (rng.randint(0, 86399), rng.randint(0, 999))]
         if day == 24855:
             insts += [(11647, 0), (11647, 999), (11648, 0)]
         for s, ms in insts:
             cases.append({"k": "inst", "day": day, "sec": s, "ms": ms})
-        if i in special or i % 3 == 0:
+        if i in special or i % (5 if q else 2) == 0:
             s = rng.choice(SECS + [rng.randint(0, 86399)])
             f = {"y": c["y"], "mo": c["m"], "d": c["d"], "h": s // 3600, "mi": s % 3600 // 60, "s": s % 60, "ms": rng.choice(MSS + [rng.randint(0, 999)])}
             date = "%04d%02d%02d" % (f["y"], f["mo"], f["d"])
@@ -60,7 +60,7 @@ def build_cases(ctx, rng, days):
                 cases.append({"k": "parse", "kind": "my", "text": date[:6], "f": f})
     # every second of one day (UTCTimeOnly carries the time of day): a stride of them in the quick tier
     d0 = days[rng.randrange(n)]["day"]
-    for s in range(ctx.seed % 11 if q else 0, 86400, 11 if q else 1):
+    for s in range(ctx.seed % 23 if q else 0, 86400, 23 if q else 1):
         cases.append({"k": "inst", "day": d0, "sec": s, "ms": rng.choice(MSS) if s % 5 else rng.randint(0, 999)})
     for s in (0, 59, 60, 3599, 3600, 86399):
         f = {"y": 1970, "mo": 1, "d": 1, "h": s // 3600, "mi": s % 3600 // 60, "s": s % 60, "ms": rng.randint(0, 999)}
